@@ -21,6 +21,9 @@ import (
 type c14Case struct {
 	N          int             `json:"n"`
 	Chunk      int             `json:"chunk"`
+	// PeerChunk: max chunk size configured on the receiving endpoint when it
+	// differs from the sender's (0: same as Chunk, -1: none).
+	PeerChunk int `json:"peer_chunk,omitempty"`
 	Lens       []int           `json:"lens"`
 	FromSrv    bool            `json:"from_srv"`
 	FwdMs      int             `json:"fwd_ms"`
@@ -62,6 +65,21 @@ func runC14(t *testing.T, c *c14Case) (res c14Result) {
 	sc := &vnet.Scenario{N: c.N, MaxChunk: c.Chunk,
 		Client: vnet.TimeoutCfg{Static: true, ResendMs: c.ResendMs, HandshakeMs: c.ResendMs},
 		Server: vnet.TimeoutCfg{Static: true, ResendMs: c.ResendMs, HandshakeMs: c.ResendMs},
+	}
+	if c.PeerChunk != 0 {
+		// sc.MaxChunk is the client's, sc.MaxChunkSrv the server's
+		if c.FromSrv {
+			sc.MaxChunkSrv = c.Chunk
+			if c.Chunk == 0 {
+				sc.MaxChunkSrv = -1
+			}
+			sc.MaxChunk = c.PeerChunk
+			if c.PeerChunk < 0 {
+				sc.MaxChunk = 0
+			}
+		} else {
+			sc.MaxChunkSrv = c.PeerChunk
+		}
 	}
 	d := 0
 	if c.FromSrv {
@@ -402,6 +420,9 @@ func genC14(t *rapid.T) *c14Case {
 		}
 	}
 	c.FromSrv = rapid.Bool().Draw(t, "from_srv")
+	if rapid.IntRange(0, 3).Draw(t, "asym") == 0 {
+		c.PeerChunk = rapid.SampledFrom([]int{-1, 1, 2, 5, 10, 64, 100000}).Draw(t, "peer_chunk")
+	}
 	c.ResendMs = rapid.SampledFrom([]int{100, 500, 1000}).Draw(t, "resend")
 	c.FwdMs = rapid.SampledFrom([]int{0, 1, 20}).Draw(t, "fwd")
 	c.RevMs = rapid.SampledFrom([]int{0, 1, 20, c.ResendMs / 2}).Draw(t, "rev")
